@@ -62,7 +62,9 @@ P = {
             "0.5 s..2 h, optionally with the transport failing; the freshness-relevant header values are parsed by the driver's own "
             "RFC 7234 reader (the model computes what cachecontrol computes from them, the specification what RFC 7234 4.2 says), "
             "cachecontrol's cachability verdict is oracle data; "
-            "cache (10%): time-stamped Set/Get sequences (ttl -1h..1h incl. 0, -1, -2, sub-millisecond) on both real backends; "
+            "cache (10%): time-stamped Set/Get sequences (ttl -1h..1h incl. 0, -1, -2, sub-millisecond) on both real backends, and bursts "
+            "of 40-60 in-memory entries with one ttl of 0.2-2 s all probed 3 ms after the last Set returned + ttl (and again 2 % later): "
+            "none may be answered; "
             "hist (10%): 3-6 time-stamped requests over two keys through one instance of remote authorizer / contextualizer / generic "
             "authenticator / introspection / jwt finalizer / client credentials / JWK cache / round tripper (stub transport or a "
             "contextualizer with endpoint.http_cache against a real httptest server), ttl 0/short/long via prototype or rule level, half "
@@ -95,6 +97,9 @@ P = {
         "miniredis v2.33 stands for a Redis server (PX <= 0 rejected, key gone once PX elapsed); rueidis client-side caching "
         "(DoCache, on by default in production) is disabled as in the repository's own tests -- nothing behind that switch is observed; "
         "ttlcache v3.3.0 is exercised as it is (no background cleaner)",
+        "in-memory cache timing is one-sided and load-independent: a Set counts from the instant it returned, a Get from the instant it "
+        "was issued (monotonic clock), so the only disagreement possible is a real hit at or after set-return + ttl; early or late "
+        "misses never alarm",
         "wall clock: every real call is bracketed by two clock readings; cases reading whole seconds are repeated when the second "
         "flips, a bracket wider than 4 s or a ttl inside a measured uncertainty window (+2 ms) makes the case repeat; a case that "
         "cannot be pinned down is recorded as skipped (tag, evidence field skipped_cases), the driver fails above 5 % skipped; a "
